@@ -25,6 +25,9 @@ ASSUMPTIONS = c06.ASSUMPTIONS + [
     "the base archive is reference-written (any layout of the C06 shape set) and parsed by the real reader; the append "
     "session runs the real _prepare_append / Header.initialize / _writef / Worker.archive / flush_archive / Header.write / "
     "SignatureHeader.write with the codec contract stub of C07; the result is parsed by the independent reference reader",
+    "append_open_position: the real SevenZipFile.__init__ runs; _check_7zfile is replaced by its contract (are the six bytes "
+    "at the CURRENT position the magic: yes at offset 0 of this valid archive, either answer anywhere else)",
+    "append_keeps_ctime: one obligation of its own for the creation-time field (open finding K07)",
 ]
 
 
